@@ -3,9 +3,9 @@ package main
 // Calls: builtins, inlining, modular calls through contracts, externs, havoc.
 
 import (
-	"os"
 	"fmt"
 	"go/types"
+	"os"
 	"sort"
 	"strings"
 
@@ -173,7 +173,11 @@ func (x *Exec) invoke(st *State, ins ssa.Instruction, c *ssa.CallCommon, fnv Val
 		}
 	}(len(st.Events))
 	siteName := ""
-	if st.Frame.Fn == x.Fn && x.FC != nil && (len(x.FC.Sites) > 0 || len(x.FC.Ghosts) > 0) {
+	// call-site clauses and ghost updates apply to the calls the function makes itself and to the calls
+	// made by callees that are inlined into it (a helper extracted from the body keeps its clauses;
+	// ordinals "#k" only number the function's own call sites)
+	if x.FC != nil && (len(x.FC.Sites) > 0 || len(x.FC.Ghosts) > 0) {
+		callerFrame := st.Frame
 		switch {
 		case c.IsInvoke():
 			siteName = c.Method.Name()
@@ -194,26 +198,46 @@ func (x *Exec) invoke(st *State, ins ssa.Instruction, c *ssa.CallCommon, fnv Val
 			}
 		}
 		siteName = x.siteWithOrdinal(ins, siteName)
-		x.siteBefore(st, ins, siteName, args)
-		defer func() {
-			if os.Getenv("GOVC_DEBUG") != "" {
-				fmt.Fprintf(os.Stderr, "deferred site %s frameNil=%v dead=%v\n", siteName, st.Frame == nil, st.Dead)
+		own := callerFrame.Fn == x.Fn && callerFrame.Caller == nil
+		if !own {
+			// inside an inlined callee only the stated assumptions about the callee apply (they are about
+			// the called function, not about the site); assertions, ordinals and ghost updates belong to the
+			// function's own call sites
+			env := x.siteEnv(st, args, nil)
+			for _, cl := range x.siteClauses("assume", siteName) {
+				st.Assume(x.evalBool(env, cl.Expr))
 			}
-			if os.Getenv("GOVC_DEBUG") != "" && st.Frame != nil {
-				fmt.Fprintf(os.Stderr, "   frame fn %s vs %s\n", st.Frame.Fn, x.Fn)
-			}
-			if st.Frame != nil && st.Frame.Fn == x.Fn && !st.Dead {
-				var rv Value
-				if res != nil {
-					rv = st.Frame.Regs[res]
+			defer func() {
+				if st.Frame != nil && st.Frame == callerFrame && !st.Dead && res != nil {
+					env := x.siteEnv(st, args, st.Frame.Regs[res])
+					for _, cl := range x.siteClauses("assumeafter", siteName) {
+						st.Assume(x.evalBool(env, cl.Expr))
+					}
 				}
-				x.siteAfter(st, ins, siteName, args, rv)
-			} else if st.Frame != nil && !st.Dead && st.Frame.Caller != nil && st.Frame.Caller.Fn == x.Fn && st.Frame.Caller.Caller == nil && st.Frame.CallIns == ins {
-				// the callee was inlined: run the "after" clauses when its frame returns
-				sn, ar := siteName, args
-				st.Frame.AfterSite = func(s2 *State, rv Value) { x.siteAfter(s2, ins, sn, ar, rv) }
-			}
-		}()
+			}()
+		}
+		if own {
+			x.siteBefore(st, ins, siteName, args)
+			defer func() {
+				if os.Getenv("GOVC_DEBUG") != "" {
+					fmt.Fprintf(os.Stderr, "deferred site %s frameNil=%v dead=%v\n", siteName, st.Frame == nil, st.Dead)
+				}
+				if os.Getenv("GOVC_DEBUG") != "" && st.Frame != nil {
+					fmt.Fprintf(os.Stderr, "   frame fn %s vs %s\n", st.Frame.Fn, x.Fn)
+				}
+				if st.Frame != nil && st.Frame == callerFrame && !st.Dead {
+					var rv Value
+					if res != nil {
+						rv = st.Frame.Regs[res]
+					}
+					x.siteAfter(st, ins, siteName, args, rv)
+				} else if st.Frame != nil && !st.Dead && st.Frame.Caller == callerFrame && st.Frame.CallIns == ins {
+					// the callee was inlined: run the "after" clauses when its frame returns
+					sn, ar := siteName, args
+					st.Frame.AfterSite = func(s2 *State, rv Value) { x.siteAfter(s2, ins, sn, ar, rv) }
+				}
+			}()
+		}
 	}
 	if c.IsInvoke() {
 		// receiver must be non-nil (after the site's own assumptions were taken into account)
